@@ -10,7 +10,8 @@
   (`splitLoop_spec`). Runs of three or more equal points therefore lose all but their first vertex.
 -/
 import RosuModel.Model.HitObjectLine
-import RosuModel.Lemmas.ToyInt
+import RosuModel.Props.C14
+import RosuModel.Lemmas.ToyScalar
 namespace Rosu.C14
 open Rosu Scalar
 
@@ -391,6 +392,212 @@ theorem convertPoints_spec (st : PathScratch P) (head : Str) (tail : List Str) (
     exact splitLoop_spec (effectivePathType (PathType.newFromStr head) (v0 :: vrest)) ((v0 :: vrest).length - ev.length)
       ({ v0 with pathType := some (effectivePathType (PathType.newFromStr head) (v0 :: vrest)) } :: vrest)
       st.curvePoints hlim1 (by simp only [List.length_cons] at hlim1 ⊢; omega)
+/-! ### the clauses of the property text -/
+
+omit [Scalar F] [Cvt P F] in
+/-- the split predicate in words. -/
+theorem isSplit_iff (pt : PathType) (limit : Nat) (vs : List (PathControlPoint P)) (e : Nat) :
+    isSplit pt limit vs e = true ↔
+      1 ≤ e ∧ e < limit ∧ posEqAt vs e = true ∧ ¬ (pt = PathType.catmull ∧ 1 < e) ∧ e ≠ limit - 1 := by
+  unfold isSplit
+  simp only [Bool.and_eq_true, decide_eq_true_eq, Bool.not_eq_true', Bool.and_eq_false_imp, beq_iff_eq,
+    decide_eq_false_iff_not, beq_eq_false_iff_ne, ne_eq]
+  constructor
+  · rintro ⟨⟨⟨⟨h1, h2⟩, h3⟩, h4⟩, h5⟩
+    exact ⟨h1, h2, h3, fun ⟨a, b⟩ => h4 a b, h5⟩
+  · rintro ⟨h1, h2, h3, h4, h5⟩
+    exact ⟨⟨⟨⟨h1, h2⟩, h3⟩, fun a b => h4 ⟨a, b⟩⟩, h5⟩
+
+omit [Scalar F] [Cvt P F] in
+/-- **duplicate_splits**: at a split index the repeated vertex is dropped … -/
+theorem duplicate_dropped (pt : PathType) (limit : Nat) (vs : List (PathControlPoint P)) (e : Nat)
+    (h : isSplit pt limit vs e = true) : emitAt pt limit vs e = none := by
+  unfold emitAt; simp [h]
+
+omit [Scalar F] [Cvt P F] in
+/-- … and the vertex before it (when it is emitted at all, i.e. not itself a dropped duplicate) carries
+the path type: it ends one segment and starts the next. -/
+theorem duplicate_types_previous (pt : PathType) (limit : Nat) (vs : List (PathControlPoint P)) (e : Nat)
+    (v : PathControlPoint P) (h : isSplit pt limit vs (e + 1) = true) (hprev : isSplit pt limit vs e = false)
+    (hv : vs[e]? = some v) : emitAt pt limit vs e = some { v with pathType := some pt } := by
+  unfold emitAt; simp [h, hprev, hv]
+
+omit [Scalar F] [Cvt P F] in
+/-- a vertex that neither is nor precedes a split index is emitted unchanged. -/
+theorem no_split_unchanged (pt : PathType) (limit : Nat) (vs : List (PathControlPoint P)) (i : Nat)
+    (v : PathControlPoint P) (h : isSplit pt limit vs i = false) (hnext : isSplit pt limit vs (i + 1) = false)
+    (hv : vs[i]? = some v) : emitAt pt limit vs i = some v := by
+  unfold emitAt; simp [h, hnext, hv]
+
+omit [Scalar F] [Cvt P F] in
+/-- **catmull_no_split_after_first**: in a Catmull segment only index 1 can split. -/
+theorem catmull_no_split_after_first (limit : Nat) (vs : List (PathControlPoint P)) (e : Nat) (h : 1 < e) :
+    isSplit PathType.catmull limit vs e = false := by
+  cases hs : isSplit PathType.catmull limit vs e with
+  | false => rfl
+  | true => exact absurd ⟨rfl, h⟩ ((isSplit_iff _ _ _ _).mp hs).2.2.2.1
+
+omit [Scalar F] [Cvt P F] in
+/-- **no_split_at_segment_end**: the last vertex of the segment (the last one below the handed-over
+end point) never splits. -/
+theorem no_split_at_segment_end (pt : PathType) (limit : Nat) (vs : List (PathControlPoint P)) :
+    isSplit pt limit vs (limit - 1) = false := by
+  cases hs : isSplit pt limit vs (limit - 1) with
+  | false => rfl
+  | true => exact absurd rfl ((isSplit_iff _ _ _ _).mp hs).2.2.2.2
+
+omit [Scalar F] [Cvt P F] in
+/-- nothing at or beyond `limit` splits: the handed-over end point is never compared as `vertices[e]`. -/
+theorem no_split_beyond_limit (pt : PathType) (limit : Nat) (vs : List (PathControlPoint P)) (e : Nat)
+    (h : limit ≤ e) : isSplit pt limit vs e = false := isSplit_ge_limit pt limit vs e h
+
+omit [Scalar F] [Cvt P F] in
+theorem isSplit_congr (pt : PathType) (limit : Nat) (vs vs' : List (PathControlPoint P))
+    (h : ∀ i, i < limit → vs[i]? = vs'[i]?) (e : Nat) : isSplit pt limit vs e = isSplit pt limit vs' e := by
+  unfold isSplit
+  by_cases he : e < limit
+  · have : posEqAt vs e = posEqAt vs' e := by
+      unfold posEqAt; rw [h e he, h (e - 1) (by omega)]
+    rw [this]
+  · have : decide (e < limit) = false := by simpa using he
+    simp [this]
+
+omit [Scalar F] [Cvt P F] in
+/-- the emitted points are a function of the vertices below `limit` only. -/
+theorem emitRange_congr (pt : PathType) (limit : Nat) (vs vs' : List (PathControlPoint P))
+    (h : ∀ i, i < limit → vs[i]? = vs'[i]?) (lo len : Nat) (hb : lo + len ≤ limit) :
+    emitRange pt limit vs lo len = emitRange pt limit vs' lo len := by
+  induction len generalizing lo with
+  | zero => rfl
+  | succ n ih =>
+    rw [emitRange_succ, emitRange_succ, ih (lo + 1) (by omega)]
+    congr 1
+    unfold emitAt
+    rw [isSplit_congr pt limit vs vs' h lo, isSplit_congr pt limit vs vs' h (lo + 1), h lo (by omega)]
+
+omit [Scalar P] [Scalar F] [Cvt P F] in
+theorem typeFirst_append (pt : PathType) (a b : List (PathControlPoint P)) (ha : a ≠ []) :
+    typeFirst pt (a ++ b) = typeFirst pt a ++ b := by
+  cases a with
+  | nil => exact absurd rfl ha
+  | cons x xs => rfl
+
+omit [Scalar P] [Scalar F] [Cvt P F] in
+theorem typeFirst_length (pt : PathType) (a : List (PathControlPoint P)) : (typeFirst pt a).length = a.length := by
+  cases a <;> rfl
+
+/-- **first_point_origin_typed**: for the first segment of a path (`first = true`) the first control
+point appended is the origin carrying the effective path type. -/
+theorem first_point_origin_typed (st : PathScratch P) (head : Str) (tail : List Str) (endPoint : Option Str)
+    (offset : Pos P) (own ev : List (PathControlPoint P))
+    (hown : readPoints F offset tail = some own) (hev : readEnd F endPoint offset = some ev) :
+    ∃ rest, (convertPoints F st (head :: tail) endPoint true offset).1.curvePoints =
+      st.curvePoints ++
+        { pos := Pos.zero, pathType := some (effectivePathType (PathType.newFromStr head) (segVertices true own ev)) } :: rest := by
+  obtain ⟨_, h⟩ := convertPoints_spec (F := F) st head tail endPoint true offset own ev hown hev (Or.inl rfl)
+  rw [h]
+  have hlen : (segVertices true own ev).length - ev.length = own.length + 1 := by
+    unfold segVertices; simp; omega
+  rw [hlen, emitRange_succ]
+  have h0 : emitAt (effectivePathType (PathType.newFromStr head) (segVertices true own ev)) (own.length + 1)
+      (typeFirst (effectivePathType (PathType.newFromStr head) (segVertices true own ev)) (segVertices true own ev)) 0 =
+      some { pos := Pos.zero, pathType := some (effectivePathType (PathType.newFromStr head) (segVertices true own ev)) } := by
+    unfold emitAt
+    rw [isSplit_zero]
+    simp only [Bool.false_eq_true, if_false]
+    have : (typeFirst (effectivePathType (PathType.newFromStr head) (segVertices true own ev)) (segVertices true own ev))[0]? =
+        some { pos := Pos.zero, pathType := some (effectivePathType (PathType.newFromStr head) (segVertices true own ev)) } := by
+      generalize effectivePathType (PathType.newFromStr head) (segVertices true own ev) = pt
+      simp [segVertices, typeFirst]
+    rw [this]
+    dsimp only
+    split <;> rfl
+  rw [h0]
+  exact ⟨_, rfl⟩
+
+/-- **segment_end_point_shared**: the end point handed over from the next segment takes part in the
+perfect-curve test (the effective path type is computed on ALL vertices, `v` included) but is never
+emitted — the control points appended are a function of that path type and of the segment's own
+vertices only. -/
+theorem segment_end_point_shared (st : PathScratch P) (head : Str) (tail : List Str) (e : Str)
+    (first : Bool) (offset : Pos P) (own : List (PathControlPoint P)) (v : PathControlPoint P)
+    (hown : readPoints F offset tail = some own) (hv : readPoint (F := F) e offset = some v)
+    (hne : first = true ∨ tail ≠ []) :
+    let pt := effectivePathType (PathType.newFromStr head) (segVertices first own [v])
+    let ownVs := segVertices first own []
+    (convertPoints F st (head :: tail) (some e) first offset).1.curvePoints =
+      st.curvePoints ++ emitRange pt ownVs.length (typeFirst pt ownVs) 0 ownVs.length := by
+  intro pt ownVs
+  have hev : readEnd F (some e) offset = some [v] := by unfold readEnd; simp [hv]
+  obtain ⟨_, h⟩ := convertPoints_spec (F := F) st head tail (some e) first offset own [v] hown hev hne
+  rw [h]
+  have hsv : segVertices first own [v] = ownVs ++ [v] := by
+    show segVertices first own [v] = segVertices first own [] ++ [v]
+    unfold segVertices; simp
+  have hownlen := readPoints_length (F := F) offset tail own hown
+  have hne' : ownVs ≠ [] := by
+    show segVertices first own [] ≠ []
+    unfold segVertices
+    rcases hne with h | h
+    · subst h; simp
+    · intro hnil
+      have hl : own.length = 0 := by
+        have := congrArg List.length hnil
+        simp only [List.length_append, List.length_nil] at this
+        omega
+      exact h (List.eq_nil_of_length_eq_zero (by omega))
+  have hlen : (segVertices first own [v]).length - [v].length = ownVs.length := by rw [hsv]; simp
+  rw [hlen]
+  congr 1
+  apply emitRange_congr
+  · intro i hi
+    show (typeFirst pt (segVertices first own [v]))[i]? = _
+    rw [hsv, typeFirst_append _ _ _ hne', List.getElem?_append_left (by rw [typeFirst_length]; exact hi)]
+  · omega
+
 end
+
+/-! ### non-vacuity and worked instances (integer toy scalar `Z`: positions are the integers themselves) -/
+
+instance : Cvt Z Z := ⟨id, id⟩
+
+/-- control point `(x, y)` with an optional type. -/
+def zp (x y : Int) (t : Option PathType := none) : PathControlPoint Z := ⟨⟨⟨x⟩, ⟨y⟩⟩, t⟩
+
+-- the hypotheses of `convertPoints_spec` hold for an ordinary segment
+example : readPoints Z (⟨⟨0⟩, ⟨0⟩⟩ : Pos Z) [str "1:1", str "1:1", str "2:2", str "3:3"] = some [zp 1 1, zp 1 1, zp 2 2, zp 3 3]
+    ∧ readEnd Z (some (str "5:5")) (⟨⟨0⟩, ⟨0⟩⟩ : Pos Z) = some [zp 5 5] := ⟨rfl, rfl⟩
+
+-- `B|1:1|1:1|2:2|3:3`: index 2 repeats index 1 → the repeat is dropped, `(1,1)` is typed
+example : (convertPoints Z ({} : PathScratch Z) [str "B", str "1:1", str "1:1", str "2:2", str "3:3"] none true ⟨⟨0⟩, ⟨0⟩⟩).1.curvePoints
+    = [zp 0 0 (some PathType.bezier), zp 1 1 (some PathType.bezier), zp 2 2, zp 3 3] := rfl
+example : isSplit PathType.bezier 5 [zp 0 0, zp 1 1, zp 1 1, zp 2 2, zp 3 3] 2 = true := rfl
+
+-- three equal points in a row: indices 2 and 3 are both split indices, BOTH repeats are dropped
+-- (the second split emits the empty slice `vertices[3..3]`)
+example : (convertPoints Z ({} : PathScratch Z) [str "B", str "1:1", str "1:1", str "1:1", str "2:2", str "3:3"] none true ⟨⟨0⟩, ⟨0⟩⟩).1.curvePoints
+    = [zp 0 0 (some PathType.bezier), zp 1 1 (some PathType.bezier), zp 2 2, zp 3 3] := rfl
+
+-- Catmull: a repeat after index 1 does not split; a repeat AT index 1 (of the origin) does
+example : (convertPoints Z ({} : PathScratch Z) [str "C", str "1:1", str "1:1", str "2:2", str "3:3"] none true ⟨⟨0⟩, ⟨0⟩⟩).1.curvePoints
+    = [zp 0 0 (some PathType.catmull), zp 1 1, zp 1 1, zp 2 2, zp 3 3] := rfl
+example : (convertPoints Z ({} : PathScratch Z) [str "C", str "0:0", str "2:2", str "3:3"] none true ⟨⟨0⟩, ⟨0⟩⟩).1.curvePoints
+    = [zp 0 0 (some PathType.catmull), zp 2 2, zp 3 3] := rfl
+
+-- a repeat at the segment's end does not split
+example : (convertPoints Z ({} : PathScratch Z) [str "B", str "1:1", str "2:2", str "2:2"] none true ⟨⟨0⟩, ⟨0⟩⟩).1.curvePoints
+    = [zp 0 0 (some PathType.bezier), zp 1 1, zp 2 2, zp 2 2] := rfl
+
+-- the handed-over end point decides the perfect-curve test (4 vertices → Bezier, 3 → stays perfect) and is not emitted
+example : (convertPoints Z ({} : PathScratch Z) [str "P", str "1:1", str "2:0"] (some (str "5:5")) true ⟨⟨0⟩, ⟨0⟩⟩).1.curvePoints
+    = [zp 0 0 (some PathType.bezier), zp 1 1, zp 2 0] := rfl
+example : (convertPoints Z ({} : PathScratch Z) [str "P", str "1:1", str "2:0"] none true ⟨⟨0⟩, ⟨0⟩⟩).1.curvePoints
+    = [zp 0 0 (some PathType.perfect), zp 1 1, zp 2 0] := rfl
+
+-- why `1 ≤ limit` is a hypothesis: a segment consisting of the type letter only, not first, with an end
+-- point (`limit = 0`) would emit the end point through the final flush. `convert_path_str` cannot reach
+-- this: two adjacent type letters make the earlier segment's end point a letter piece, which fails to read.
+example : (convertPoints Z ({} : PathScratch Z) [str "L"] (some (str "5:5")) false ⟨⟨0⟩, ⟨0⟩⟩).1.curvePoints
+    = [zp 5 5 (some PathType.linear)] := rfl
 
 end Rosu.C14
